@@ -20,6 +20,30 @@ pub enum Flush {
     High,
     /// slice begins exactly where the lower guard page ends (catches underruns before the start)
     Low,
+    /// slice begins `align_of::<T>()` bytes after the lower guard page: for `Complex<f32>` / `Complex<f64>` that is HALF an
+    /// element, i.e. the least alignment a safe caller can legally hand over (a `&[Complex<f32>]` only has to be 4-byte
+    /// aligned). An aligned SIMD load/store (`_mm_load_ps`, `_mm256_store_pd` ...) faults on such a slice.
+    LowOff,
+    /// slice ends `align_of::<T>()` bytes before the upper guard page (same purpose, other end)
+    HighOff,
+}
+impl Flush {
+    pub fn from_code(c: i64) -> Flush {
+        match c {
+            1 => Flush::Low,
+            2 => Flush::LowOff,
+            3 => Flush::HighOff,
+            _ => Flush::High,
+        }
+    }
+    pub fn name(self) -> &'static str {
+        match self {
+            Flush::High => "high",
+            Flush::Low => "low",
+            Flush::LowOff => "low+misaligned",
+            Flush::HighOff => "high-misaligned",
+        }
+    }
 }
 
 thread_local! {
@@ -41,7 +65,11 @@ impl<T: Copy> Guarded<T> {
     /// all-zero bit pattern is a valid value)
     pub fn zeroed(len: usize, flush: Flush) -> Guarded<T> {
         let bytes = len * std::mem::size_of::<T>();
-        let body_pages = (bytes + PAGE - 1) / PAGE;
+        let off = match flush {
+            Flush::LowOff | Flush::HighOff => std::mem::align_of::<T>(),
+            _ => 0,
+        };
+        let body_pages = (bytes + off + PAGE - 1) / PAGE;
         let body_len = body_pages.max(1) * PAGE;
         let map_len = body_len + 2 * PAGE;
         unsafe {
@@ -63,11 +91,13 @@ impl<T: Copy> Guarded<T> {
             let body = base.add(PAGE);
             if recycled.is_some() {
                 // same guarantee as a fresh mapping: the slice starts out zeroed
-                std::ptr::write_bytes(match flush { Flush::High => body.add(body_len - bytes), Flush::Low => body }, 0, bytes);
+                std::ptr::write_bytes(body, 0, body_len);
             }
             let start = match flush {
                 Flush::High => body.add(body_len - bytes),
                 Flush::Low => body,
+                Flush::LowOff => body.add(off),
+                Flush::HighOff => body.add(body_len - bytes - off),
             };
             assert_eq!(start as usize % std::mem::align_of::<T>(), 0);
             Guarded { base, map_len, ptr: start as *mut T, len, body, body_len }
